@@ -3,6 +3,7 @@ package symex
 import (
 	"strconv"
 	"strings"
+	"sync"
 
 	"verif/engine/smt"
 
@@ -44,8 +45,40 @@ func decimalOf(s *smt.Term) (*smt.Term, bool) {
 	return nil, false
 }
 
+// hexLen remembers the concrete byte length of byte strings that went through
+// hex.EncodeToString, so that hex.DecodeString of that very encoding returns a slice of concrete
+// length (the general model in intrinsics.go returns length "unknown", which turns every later
+// len() comparison into a solver decision).  Terms are hash-consed and global, the length of a
+// given term never changes.
+var (
+	hexLenMu sync.Mutex
+	hexLen   = map[int]int{}
+)
+
 func init() {
 	I := intrinsics
+
+	generalHexEncode := I["encoding/hex.EncodeToString"]
+	I["encoding/hex.EncodeToString"] = func(m *Machine, fn *ssa.Function, args []Value) Value {
+		if t, n := m.sliceBytesTerm(args[0]); n >= 0 && !t.IsConst() {
+			hexLenMu.Lock()
+			hexLen[t.ID] = n
+			hexLenMu.Unlock()
+		}
+		return generalHexEncode(m, fn, args)
+	}
+	generalHexDecode := I["encoding/hex.DecodeString"]
+	I["encoding/hex.DecodeString"] = func(m *Machine, fn *ssa.Function, args []Value) Value {
+		if s := strArg(args[0]); s.Op == "uf" && s.Name == "hexenc" {
+			hexLenMu.Lock()
+			n, ok := hexLen[s.Args[0].ID]
+			hexLenMu.Unlock()
+			if ok {
+				return TupleV{m.bytesValue(s.Args[0], n), &IfaceV{}}
+			}
+		}
+		return generalHexDecode(m, fn, args)
+	}
 
 	// strconv.AppendUint(dst, x, 10): dst followed by the canonical decimal digits of x.
 	I["strconv.AppendUint"] = func(m *Machine, fn *ssa.Function, args []Value) Value {
@@ -97,6 +130,38 @@ func init() {
 	I["math.Float64frombits"] = func(m *Machine, fn *ssa.Function, args []Value) Value {
 		return smt.UF("math.Float64frombits", smt.F64, args[0].(*smt.Term))
 	}
+
+	// bytes.NewReader: an opaque reader over the bytes; only parsers that are overridden by a
+	// harness consume it.
+	I["bytes.NewReader"] = func(m *Machine, fn *ssa.Function, args []Value) Value {
+		t, _ := m.sliceBytesTerm(args[0])
+		return m.newOpaqueObj("bytes.Reader", t)
+	}
+
+	// btcutil.NewAddressWitnessScriptHash(program, net): an address object whose ScriptAddress()
+	// is the program; an error when the program is not 32 bytes long (documented contract).
+	I["github.com/btcsuite/btcd/btcutil.NewAddressWitnessScriptHash"] = func(m *Machine, fn *ssa.Function, args []Value) Value {
+		t, n := m.sliceBytesTerm(args[0])
+		var is32 *smt.Term
+		if n >= 0 {
+			is32 = smt.BoolC(n == 32)
+		} else {
+			is32 = smt.Eq(smt.StrLen(t), smt.IntC(32))
+		}
+		if m.branch(is32, nil) {
+			return TupleV{m.newOpaqueObj("addr_wsh", t), &IfaceV{}}
+		}
+		return TupleV{(*Ptr)(nil), m.newError(smt.StrC("witness program must be 32 bytes for p2wsh"), nil)}
+	}
+	scriptAddress := func(m *Machine, fn *ssa.Function, args []Value) Value {
+		o := opaqueOf(args[0])
+		if o == nil || o.Kind != "addr_wsh" {
+			panic(unsupported("ScriptAddress of an address that is not a modelled witness script hash"))
+		}
+		return m.bytesValue(o.T, 32)
+	}
+	I["(*github.com/btcsuite/btcd/btcutil.AddressSegWit).ScriptAddress"] = scriptAddress
+	I["(*github.com/btcsuite/btcd/btcutil.AddressWitnessScriptHash).ScriptAddress"] = scriptAddress
 
 	// bytes.Compare: 0 iff equal, otherwise -1 or +1 (the sign is the lexicographic order of the
 	// byte strings; SMT str.< is the same order on code points < 256).
